@@ -1449,3 +1449,21 @@ Section Flatten.
     rewrite <- fin_norm. unfold X1, flat. rewrite fold_left_app. reflexivity.
   Qed.
 End Flatten.
+
+(* ---- RevealBefore / RevealAfter in one step are the two halves of Subsume ------------------------------------------ *)
+Lemma reveal_after_is_subsume : forall n T dr l1 r1 l2 r2,
+  fst (fst (reveal_after n T dr l1 r1 l2 0)) = fst (fst (subsume n T dr l1 r1 l2 r2)).
+Proof.
+  intros n T dr l1 r1 l2 r2. unfold reveal_after, subsume. cbn [skipn].
+  destruct (extend_loop n T dr (s_words r1) (s_bo r1) (l_ptrs l2) (negb (l_full l1))) as [[v written] bw].
+  destruct (l_full l2); reflexivity.
+Qed.
+
+Lemma reveal_before_is_subsume : forall n T dr l1 r1 l2 r2,
+  fst (fst (reveal_before n T dr r1 0 (l_full l1) l2 r2)) = fst (fst (subsume n T dr l1 r1 l2 r2)) /\
+  snd (reveal_before n T dr r1 0 (l_full l1) l2 r2) = snd (subsume n T dr l1 r1 l2 r2).
+Proof.
+  intros n T dr l1 r1 l2 r2. unfold reveal_before, subsume. cbn [skipn].
+  destruct (extend_loop n T dr (s_words r1) (s_bo r1) (l_ptrs l2) (negb (l_full l1))) as [[v written] bw].
+  destruct (l_full l2); split; reflexivity.
+Qed.
